@@ -30,6 +30,9 @@ func c01Patterns() []string {
 	for _, c := range windowColliders {
 		p = append(p, c[0], c[1], "/"+c[0]+"/x", c[1]+"^")
 	}
+	for _, c := range seqTextColliders {
+		p = append(p, c[0], c[1]) // distinct rule texts with equal FastHash, both without a long shortcut
+	}
 	return p
 }
 
@@ -42,6 +45,9 @@ func c01URLs() []string {
 		"http://пример.рф/реклама", "http://x.com/ads/баннер.gif", "http://x.com/РЕКЛАМА/ёж", "http://localhost/ads/x.js"}
 	for _, c := range windowColliders {
 		u = append(u, "http://x.com/"+c[0], "http://x.com/q/"+c[1], "http://x.com/"+c[0]+"/x/"+c[0], "http://"+c[1])
+	}
+	for _, c := range seqTextColliders {
+		u = append(u, "http://h.com/"+strings.ReplaceAll(c[0], "^", "/"), "http://h.com/"+strings.ReplaceAll(c[1], "^", "/"))
 	}
 	return u
 }
@@ -160,6 +166,23 @@ func genC01(t *rapid.T) c01Case {
 		}
 		models = append(models, m)
 		lines = append(lines, renderNet(t, m))
+		for _, cp := range seqTextColliders {
+			// a distinct rule whose whole text has the same FastHash (same modifiers, colliding pattern)
+			for k := 0; k < 2; k++ {
+				if m.Pat == cp[k] && chance(t, "colliding-text-twin", 2) {
+					lines = append(lines, strings.Replace(lines[len(lines)-1], cp[k], cp[1-k], 1))
+					m2 := m
+					m2.Pat = cp[1-k]
+					models = append(models, m2)
+				}
+			}
+		}
+		if chance(t, "seq-collider", 15) {
+			// bare colliding pair
+			cp := pick(t, "seq-pair", seqTextColliders)
+			lines = append(lines, cp[0], cp[1])
+			models = append(models, NetModel{Pat: cp[0]}, NetModel{Pat: cp[1]})
+		}
 		if chance(t, "duplicate", 10) {
 			lines = append(lines, lines[len(lines)-1])
 		}
@@ -167,9 +190,22 @@ func genC01(t *rapid.T) c01Case {
 			lines = append(lines, pick(t, "noise-line", []string{"! comment", "", "# hosts comment", "##.cosmetic", "0.0.0.0 example.org", "||bad^$unknown"}))
 		}
 	}
+	mass := chance(t, "mass-block", 25)
+	if mass {
+		// several hundred distinct rules sharing one single-window shortcut: the histogram counter of that window grows large
+		k := rapid.IntRange(250, 320).Draw(t, "mass")
+		w := pick(t, "mass-window", []string{"adsa6", windowColliders[0][0]})
+		for i := 0; i < k; i++ {
+			lines = append(lines, fmt.Sprintf("%s^$ctag=~t%d", w, i))
+		}
+		models = append(models, NetModel{Pat: w + "^", GRestr: []string{"t0"}})
+	}
 	lines = shuffledKeepDup(t, lines)
 	c := c01Case{Lists: distribute(t, lines, rapid.IntRange(1, 4).Draw(t, "nlists"))}
 	nq := rapid.IntRange(5, 30).Draw(t, "nreq")
+	if mass && nq > 8 {
+		nq = 8
+	}
 	for i := 0; i < nq; i++ {
 		var q Q
 		if len(models) > 0 {
